@@ -523,10 +523,22 @@ def r5_marker_stripping(ctx):
     ctx.form("self.num_cases += 1" in norm(bl) and "return self.num_cases" in norm(bl), BR, "BranchingList.register_case", "clause numbers come from an increasing counter")
 
 
+def r6_fresh_clause_state(ctx):
+    """The list of open blocks and the clause records live in the environment.  Every parse works on a deep copy of
+    the base environment (shared with C17.R2), so a block left open at the end of one text, or a clause selected in
+    it, is not seen by the next text parsed from the same base."""
+    from . import C17 as _C17
+    _C17.deep_copy_clause(ctx, "src/scinumtools/dip/environment.py", "Environment.copy", "the working environment of a parse is a deep copy: open blocks and clause records are not shared between parses")
+    fn = ctx.fn(DIP, "DIP.parse")
+    tg = [a for a in ast.walk(fn) if isinstance(a, ast.Assign) and norm(a.targets[0]) == "target"]
+    ctx.form(len(tg) == 1 and norm(tg[0].value) == "self.env.copy()", DIP, "DIP.parse", "the parse loop works on a copy of the base environment", detail=[norm(a.value) for a in tg])
+
+
 RULES = [
     ("C15.R1", "in the parse loop, injection/parse and set/modify/append of non-case lines are guarded by the negative skip test; clause lines always reach the ladder", r1_skip_dominates),
     ("C15.R2", "skip test: loop over every open block; per block skip unless exactly one clause so far is true and the current one is it", r2_skip_test),
     ("C15.R3", "clause ladder table (switch / open / close-down+switch / close / raise); @else admitted only for an open block", r3_ladder),
     ("C15.R5", "internal clause markers @<n>. are stripped from node names for every n (regex AST of the literal pattern vs the unbounded clause counter)", r5_marker_stripping),
     ("C15.R4", "closing by indentation: before the first skip test, for every hierarchy-relevant line kind, in a loop, with condition indent < clause indent or (= and not a clause line)", r4_close_before_skip),
+    ("C15.R6", "each parse starts from its own block/clause state: the working environment is a deep copy of the base (shared with C17.R2)", r6_fresh_clause_state),
 ]
